@@ -1003,10 +1003,12 @@ def build_advi(arg):
         if arg.coalescent == 'piecewise-exponential':
             parameters.append('coalescent.growth')
     elif arg.birth_death is not None:
-        parameters.append("bdsk.R")
-        parameters.append("bdsk.delta")
-        parameters.append("bdsk.rho")
-        parameters.append("bdsk.origin")
+        bd_id = arg.birth_death
+        if arg.birth_death == "constant":
+            parameters.extend([f"{bd_id}.lambda", f"{bd_id}.mu", f"{bd_id}.psi"])
+        else:
+            parameters.extend([f"{bd_id}.R", f"{bd_id}.delta"])
+        parameters.extend([f"{bd_id}.rho", f"{bd_id}.origin"])
 
     if arg.model == 'SRD06':
         for tag in ('12', '3'):
